@@ -119,10 +119,14 @@ def check_dl(rep, rule, c, what, drivers, default, table, env=None, assume=None,
         return x if x[0] == 'formula' else c.norm(x)
     tab = [(P(g), P(v)) for g, v in table]
     dflt = default if default == dl.HOLD else P(default)
+    why = order_dependent(c, drivers)
+    if why:
+        rep.unk(rule, c.fi.site, what, why)
+        return False
     try:
         got = dl.build(c.eng, drivers, dflt, include_gen)
         want = dl.expected(c.eng, tab, dflt)
-        asm = c.eng.cond(P(assume)) if assume is not None else None
+        asm = None if assume is None else (assume[1] if not isinstance(assume, str) and assume[0] == 'formula' else c.eng.cond(P(assume)))
         eq, rows, wit = dl.compare(c.eng, got, want, asm)
     except Undecided as u:
         rep.unk(rule, c.fi.site, what, str(u))
@@ -135,6 +139,41 @@ def check_dl(rep, rule, c, what, drivers, default, table, env=None, assume=None,
     rep.bad(rule, c.fi.site, what, f"decision function differs from the role table: {wit}; found {got.show()} "
             f"expected {want.show()}", lines=sorted({d.lineno for d in drivers}))
     return False
+
+
+def _loops_of(c, e):
+    """Generation loops an expression depends on (loop variables, and the birth context of local signals)."""
+    out = set(dl.loops_in(e))
+    for x in ir.walk(e):
+        if x[0] == 'sig' and x[1] in c.t.sigs:
+            out |= {fr[1] for fr in c.t.sigs[x[1]].gen if fr[0] == 'for'}
+        elif x[0] in ('carry', 'final') and x[1] in c.t.folds:
+            out.add(c.t.folds[x[1]].loop)
+        elif x[0] == 'acc' and x[1] in c.t.accs:
+            out |= {fr[1] for fr in c.t.accs[x[1]].home if fr[0] == 'for'}
+    return out
+
+
+def order_dependent(c, drivers):
+    """A driver replicated by a loop its target does not depend on is only order-independent when the copies
+    are identical or mutually exclusive (a Case pattern that depends on that loop, A6)."""
+    for d in drivers:
+        t = c.norm(d.target)
+        free = {fr[1] for fr in d.gen if fr[0] == 'for'} - _loops_of(c, t)
+        for L in free:
+            exprs = [c.norm(d.value)]
+            for fr in d.dsl:
+                if fr[0] in ('if', 'elif'):
+                    exprs.append(c.norm(fr[1]))
+            for fr in d.gen:
+                if fr[0] == 'pyif':
+                    exprs.append(c.norm(fr[1]))
+            uses = any(L in _loops_of(c, e) for e in exprs)
+            excl = any(fr[0] == 'case' and any(L in _loops_of(c, c.norm(p)) for p in fr[2]) for fr in d.dsl)
+            if uses and not excl:
+                return (f"driver at line {d.lineno} is replicated by loop {ir.show(c.t.loops[L].iter)} that its target does not "
+                        "depend on, with an iteration-dependent value or guard and no exclusive Case: emission order matters")
+    return None
 
 
 def single_unconditional(rep, rule, c, what, target, domain, value, env=None):
